@@ -107,6 +107,42 @@ private:
         // checked during type validation
     }
 
+    void validate_data_header_layout(const sbe::composite& c)
+    {
+        // `sbepp::detail::dynamic_array_ref` always reads `length` at offset 0
+        // and expects the payload right after it, composites with a different
+        // layout (custom offsets, additional elements) can't be represented
+        const auto& [length_type, length_location] =
+            get_level_header_element(c, "data", "length");
+        const auto length_offset = std::visit(
+            [this](const auto& element) -> offset_t
+            {
+                const auto& context = ctx_manager->get(element);
+                if constexpr(std::is_same_v<
+                                 std::decay_t<decltype(element)>,
+                                 sbe::ref>)
+                {
+                    return context.offset_in_composite;
+                }
+                else
+                {
+                    return context.offset_in_composite.value_or(0);
+                }
+            },
+            *utils::find_composite_element(c, "length"));
+
+        if((length_offset != 0)
+           || (ctx_manager->get(c).size
+               != get_primitive_type_size(length_type.primitive_type)))
+        {
+            throw_error(
+                "{}: data header `{}` must consist of `length` at offset 0 "
+                "directly followed by `varData`",
+                length_location,
+                c.name);
+        }
+    }
+
     void validate_data_header(const sbe::data& d)
     {
         // multiple groups usually share the same header type, we don't need to
@@ -134,8 +170,7 @@ private:
 
             validate_level_header_element(*c, "data", "length");
             validate_data_element_type(*c);
-            // strict: the order should be `length -> varData` and no other
-            //  elements are allowed
+            validate_data_header_layout(*c);
 
             validated_data_headers.insert(lowered_name);
         }
